@@ -1650,6 +1650,13 @@ func (self *Fork) expandForkFromObj(
 			part = &pc
 			self.forkId[i] = part
 		}
+		// The part may be shared with, and carry the range of, a fork
+		// which was already expanded.  A null source has no elements.
+		if split.Source.CallMode() == syntax.ModeMapCall {
+			part.Range = mapKeyRange(nil)
+		} else {
+			part.Range = arrayLengthRange(0)
+		}
 		part.Id = emptyFork{}
 		self.updateId(self.forkId)
 		self.writeDisable()
